@@ -673,7 +673,7 @@ def stage_solvable(ctx):
     rng = random.Random(2000 + ctx.seed)
     if quick:
         insts = load_instances(ctx, 'Solvable(L in 4..6)', solv_cfg({'classical', 'dimer', 'mg', 'ferro', 'chain2'}, {4, 5, 6}, 3))
-        per_fam = dict(classical=4, dimer=2, mg=3, ferro=6, chain2=2)
+        per_fam = dict(classical=3, dimer=2, mg=2, ferro=5, chain2=2)
         n_cfg = 3
     else:
         insts = load_instances(ctx, 'Solvable(L in 3..6)', solv_cfg({'classical', 'dimer', 'mg', 'ferro', 'chain2'}, {3, 4, 5, 6}, 6))
